@@ -1,12 +1,15 @@
 (* C12 property theorems only.  Proofs live in Proofs/. *)
 From BV Require Import Base.Prelude Model.Lifecycle Spec.C12_Spec Proofs.C12_Proofs.
 
-(* Run returns and Terminated is reached after Shutdown, at any instant, under every schedule:
-   full for eternal (with fix), joining (with fix), hub subscription, multiplexed; partial for the file
-   source (see C12_returns_file_full / C12_returns_file_partial in the Spec for the gap) *)
+(* Run returns and Terminated is reached after Shutdown, at any instant, under every schedule: eternal (with
+   fix), joining (with fix), hub subscription, multiplexed and file source *)
 Theorem c12_returns : C12_returns.
 Proof. exact c12_returns_proof. Qed.
 Print Assumptions c12_returns.
+
+Theorem c12_file_blocking_points : C12_file_blocking_points.
+Proof. exact c12_file_blocking_points_proof. Qed.
+Print Assumptions c12_file_blocking_points.
 
 Theorem c12_no_call_after : C12_no_call_after.
 Proof. exact c12_no_call_after_proof. Qed.
